@@ -636,8 +636,11 @@ impl FileStateMachine {
                             };
 
                             if is_expired {
-                                // Skip restoring expired keys (durable expiration semantics)
+                                // Skip restoring expired keys (durable expiration semantics).
+                                // The record still replaces whatever an earlier record or the
+                                // checkpoint holds for this key: that older value must not come back.
                                 debug!("Skipped expired key during WAL replay: key={:?}", key);
+                                data.remove(&key);
                                 skipped_expired += 1;
                                 continue;
                             }
